@@ -194,7 +194,37 @@ def gzero_pred(rnd, arity):
     return ("!", ("or", ("k", "t"), gpred(rnd, arity, 2)))
 
 
+def _and_chain(p):
+    return _and_chain(p[1]) + _and_chain(p[2]) if p[0] == "&" else [p]
+
+
+def risky(p):
+    """DuckDB 1.0.0 mis-evaluates a conjunction whose derived range for a column is empty, e.g.
+    `C0 = -1 AND C0 > C1 AND C1 >= 0` returns / deletes the row (2, 0) (known: C04/duckdb-contradictory-range-filter).  The generator keeps out of
+    that region: no AND-chain with both a column = constant atom and a column-to-column comparison (plain or under NOT)."""
+    if p is None or p[0] in ("k", "n", "nn", "e", "c"):
+        return False
+    if p[0] == "!":
+        return risky(p[1])
+    if p[0] == "or":
+        return risky(p[1]) or risky(p[2])
+    atoms = _and_chain(p)
+    cmps = [a[1] if a[0] == "!" else a for a in atoms]
+    cmps = [a for a in cmps if a[0] == "c"]
+    col_const = any(a[2] == "eq" and {a[1][0], a[3][0]} == {"C", "L"} for a in cmps)
+    col_col = any(a[1][0] == "C" and a[3][0] == "C" and a[1] != a[3] for a in cmps)
+    return (col_const and col_col) or any(risky(a) for a in atoms if a[0] in ("!", "or"))
+
+
 def gwhere(rnd, arity):
+    for _ in range(20):
+        p = _gwhere(rnd, arity)
+        if not risky(p):
+            return p
+    return None
+
+
+def _gwhere(rnd, arity):
     r = rnd.random()
     if r < 0.06:
         return None
@@ -664,6 +694,7 @@ def _check_history(chk, case, real, reply):
     mode, nop = case.get("mode", "cursor"), bool(case.get("nop"))
     sqls = [_rename(case, q) for q in case["sqls"]]
     rcase = {"kind": "hist", "tables": case["tables"], "stmts": case["stmts"], "sqls": case["sqls"], "mode": mode, "nop": nop}
+    rcase.update({k: case[k] for k in ("known_key", "known_obs") if k in case})
     how = ("conn.execute_string" if mode == "script" else "cursor.execute") + (f", instance with nop_regexes={NOP_REGEXES}" if nop else "")
     init = [_canon_rows(rows) for _, rows in case["tables"]]
     chk.count(f"mode:{mode}{':nop_regexes' if nop else ''}")
@@ -685,6 +716,9 @@ def _check_history(chk, case, real, reply):
             break
         if "err" in ro and "sqlstate_attr" in real["obs"][i] and real["obs"][i]["sqlstate_attr"] != ro["err"][2]:
             chk.violation(f"`{sql}`: cursor.sqlstate {real['obs'][i]['sqlstate_attr']!r} after error {ro['err']}", rcase, broken="C04 correspondence (error path)")
+            break
+        if ro != so and case.get("known_key") and ro == case.get("known_obs"):
+            chk.finding(case["known_key"], f"`{sql}` on {case['tables']}: the cursor shows {ro}, SQL semantics require {so}", rcase)
             break
         if ro != so:
             what = (f"statement #{i} `{sql}` of {sqls} ({how}) on tables {['T%d=%s' % (j, t) for j, (_, t) in enumerate(case['tables'])]}: "
@@ -775,6 +809,7 @@ def _from_replay(case):
     kind = case["kind"]
     if kind == "hist":
         c = {"tables": case["tables"], "stmts": case["stmts"], "sqls": case["sqls"], "mode": case.get("mode", "cursor"), "nop": bool(case.get("nop"))}
+        c.update({k: case[k] for k in ("known_key", "known_obs") if k in case})
         c["tok"] = tcase(c["tables"], c["stmts"])
     else:
         c = {k: v for k, v in case.items() if k != "kind"}
@@ -820,7 +855,9 @@ def run(chk) -> None:
     chk.extra["statements"] = sum(len(h["stmts"]) for h in hs)
     chk.assumptions = ["values stay far from the BIGINT range (|v| <= 3 + 2 per update, histories <= 8 statements)",
                        "unquoted identifiers are ASCII (Python's str.upper is modelled by ASCII upper-casing)",
-                       "at most one rejection cause per statement (DuckDB's order of binder checks is not modelled)"]
+                       "at most one rejection cause per statement (DuckDB's order of binder checks is not modelled)",
+                       "generated WHERE clauses avoid AND-chains that combine `col = const` with a column-to-column comparison: DuckDB 1.0.0 mis-evaluates conjunctions "
+                       "whose derived range is empty (known finding C04/duckdb-contradictory-range-filter, witness in the corpus)"]
     chk.trusted += ["DuckDB DML semantics and returned count (modelled by Fs.Dml.engine: scans over lists of optional ints, 3VL)",
                     "DuckDB exception class for missing table (Catalog) / unknown or repeated column, wrong number of values (Binder)",
                     "sqlglot: depth-first first identifier of CREATE/DROP is the object's own name",
